@@ -8,14 +8,19 @@ from .. import gen, hta
 from ..core import Prop
 
 
-def _side_rows(lt) -> List[Dict[str, Any]]:
-    st = lt.t.symbol_table.get_sym_table()
+def _side_rows(trace_dir: str, u: int = 1) -> List[Dict[str, Any]]:
+    """The events a comparison side stands for: a FRESH parse of the side's trace directory (parse only, nothing aligned or trimmed),
+    never the frames of the LabeledTrace object under test."""
+    from hta.common.trace import Trace
+    t = Trace(trace_dir=trace_dir)
+    t.parse_traces(use_multiprocessing=False)
+    st = t.symbol_table.get_sym_table()
     rows = []
-    for r in sorted(lt.t.traces):
-        df = lt.t.get_trace(r)
-        for t in df[["index", "name", "dur", "stream", "iteration", "correlation"]].itertuples(index=False):
-            rows.append({"rank": int(r), "id": hta.ival(t[0]), "name": st[int(t[1])], "dur": hta.ival(t[2]), "stream": hta.ival(t[3]), "iter": hta.ival(t[4]),
-                         "corr": hta.ival(t[5])})
+    for r in sorted(t.traces):
+        df = t.get_trace(r)
+        for tup in df[["index", "name", "dur", "stream", "iteration", "correlation"]].itertuples(index=False):
+            rows.append({"rank": int(r), "id": hta.ival(tup[0]), "name": st[int(tup[1])], "dur": hta.ival(float(tup[2]) * u), "stream": hta.ival(tup[3]),
+                         "iter": hta.ival(tup[4]), "corr": hta.ival(tup[5])})
     return rows
 
 
@@ -92,6 +97,13 @@ class C17(Prop):
         else:
             case["tsel"] = case["csel"]
         case["labels"] = rng.choice(["AB", "AB", "AA"])   # two objects may carry the same label (e.g. a collision of default labels)
+        case["from_loaded"] = rng.random() < 0.25
+        if k % 6 == 5:
+            from .cp import fractional_durations
+            for side in ("control", "test"):
+                if side in case and all(r["ticks"] == 1 for r in case[side]):
+                    fractional_durations(rng, {"ranks": case[side]})
+            case["u"] = 4
         case["dev"] = rng.choice(["CPU", "GPU", "ALL"])
         case["short"] = rng.random() < 0.4
         return case
@@ -104,30 +116,41 @@ class C17(Prop):
         la, lb = case.get("labels", "AB")
         with hta.CaseDir("c17") as d:
             gen.write_trace_set([gen.RankTrace(**r) for r in case["control"]], d + "/c")
-            lc = LabeledTrace(label=la, trace_dir=d + "/c")
+            u = int(case.get("u", 1))
+
+            def labeled(label, trace_dir):
+                if case.get("from_loaded"):
+                    # built from the Trace of a TraceAnalysis session (aligned, trimmed): the comparison is still about the whole trace
+                    from hta.trace_analysis import TraceAnalysis
+                    return LabeledTrace(label=label, t=TraceAnalysis(trace_dir=trace_dir).t)
+                return LabeledTrace(label=label, trace_dir=trace_dir)
+            lc = labeled(la, d + "/c")
+            dirs = {"c": d + "/c", "t": d + "/c"}
             if case["mode"] == "other":
                 gen.write_trace_set([gen.RankTrace(**r) for r in case["test"]], d + "/t")
-                lt = LabeledTrace(label=lb, trace_dir=d + "/t")
+                lt = labeled(lb, d + "/t")
+                dirs["t"] = d + "/t"
             elif case["mode"].startswith("self2"):
-                lt = LabeledTrace(label=lb, trace_dir=d + "/c")
+                lt = labeled(lb, d + "/c")
             else:
                 lt = lc
+            side_rows = {k: _side_rows(v, u) for k, v in dirs.items()}
 
-            def norm(side_lt, sel):
+            def norm(side_lt, sel, key):
                 ranks, iters = sel
-                rr = side_lt.ranks()[:1] if ranks is None else [ranks] if isinstance(ranks, int) else list(ranks)
+                rr = sorted({x["rank"] for x in side_rows[key]})[:1] if ranks is None else [ranks] if isinstance(ranks, int) else list(ranks)
                 # the default is the FIRST iteration: the smallest profiler-step number of the trace, read off the rows (not asked of the
                 # object under test)
-                steps = sorted({int(x["name"].split("#")[1]) for x in _side_rows(side_lt) if x["name"].startswith("ProfilerStep#")})
+                steps = sorted({int(x["name"].split("#")[1]) for x in side_rows[key] if x["name"].startswith("ProfilerStep#")})
                 ii = steps[:1] if iters is None else [iters] if isinstance(iters, int) else list(iters)
                 if iters is None and not steps:
                     raise ValueError("no iterations")
                 return rr, ii
             try:
-                cr, ci = norm(lc, case["csel"])
-                tr, ti = norm(lt, case["tsel"])
-                obs["c"] = {"rows": _side_rows(lc), "ranks": cr, "iters": ci}
-                obs["t"] = {"rows": _side_rows(lt), "ranks": tr, "iters": ti}
+                cr, ci = norm(lc, case["csel"], "c")
+                tr, ti = norm(lt, case["tsel"], "t")
+                obs["c"] = {"rows": side_rows["c"], "ranks": cr, "iters": ci}
+                obs["t"] = {"rows": side_rows["t"], "ranks": tr, "iters": ti}
             except Exception as ex:       # e.g. a trace without iterations: outside the quantifier ("valid selections")
                 return {"skip": True}
             dev = getattr(DeviceType, case["dev"])
@@ -136,8 +159,8 @@ class C17(Prop):
                 cl, tl = str(df.columns[0])[:-len("_counts")], str(df.columns[2])[:-len("_counts")]
                 for name, row in df.iterrows():
                     obs["table"].append({"name": str(name), "cc": hta.oval(row[f"{cl}_counts"]), "tc": hta.oval(row[f"{tl}_counts"]),
-                                         "cd": hta.oval(row[f"{cl}_total_duration"]), "td": hta.oval(row[f"{tl}_total_duration"]),
-                                         "dc": hta.oval(row["diff_counts"]), "dd": hta.oval(row["diff_duration"]),
+                                         "cd": hta.oval(float(row[f"{cl}_total_duration"]) * u), "td": hta.oval(float(row[f"{tl}_total_duration"]) * u),
+                                         "dc": hta.oval(row["diff_counts"]), "dd": hta.oval(float(row["diff_duration"]) * u),
                                          "cat": str(row["counts_change_categories"])})
                 # history on the same LabeledTrace objects: ops_diff (always long names), then the comparison in the other name mode
                 lc.label, lt.label = (la, lb) if lc is not lt else (la, la)
@@ -149,8 +172,8 @@ class C17(Prop):
                 cl, tl = str(df2.columns[0])[:-len("_counts")], str(df2.columns[2])[:-len("_counts")]
                 for name, row in df2.iterrows():
                     obs["table2"].append({"name": str(name), "cc": hta.oval(row[f"{cl}_counts"]), "tc": hta.oval(row[f"{tl}_counts"]),
-                                          "cd": hta.oval(row[f"{cl}_total_duration"]), "td": hta.oval(row[f"{tl}_total_duration"]),
-                                          "dc": hta.oval(row["diff_counts"]), "dd": hta.oval(row["diff_duration"]),
+                                          "cd": hta.oval(float(row[f"{cl}_total_duration"]) * u), "td": hta.oval(float(row[f"{tl}_total_duration"]) * u),
+                                          "dc": hta.oval(row["diff_counts"]), "dd": hta.oval(float(row["diff_duration"]) * u),
                                           "cat": str(row["counts_change_categories"])})
             except Exception as ex:
                 obs["err"] = hta.exc_str(ex)
